@@ -56,15 +56,20 @@ type Case struct {
 
 // observed is what Check saw, for Classify.
 type observed struct {
-	rendered     bool
-	headerOffset int
-	wide         bool
-	trap         bool
-	outOfDomain  bool
-	fileLen      int
-	repaired     int // streams with a bad /Length that were read
-	objstm       int
-	w0zero       bool
+	rendered           bool
+	headerOffset       int
+	wide               bool
+	trap               bool
+	outOfDomain        bool
+	fileLen            int
+	repaired           int // streams with a bad /Length that were read
+	objstm             int
+	w0zero             bool
+	sub1               bool // an update table has a subsection which starts at object 1
+	sub1MidFree        bool // ... with a later entry "0000000000 65535 f"
+	sub1MidFreeBetween bool // ... which has in-use entries before and after it
+	tightObjStm        bool // /First equals the length of the index
+	adjacentMembers    bool // members of an object stream without white space between them
 }
 
 // ---------------------------------------------------------------------------
@@ -312,6 +317,30 @@ func checkCase(c *Case) error {
 		}
 	}
 	_, c.obs.trap = isTrap(res)
+	c.obs.tightObjStm = res.ObjStmTight > 0
+	c.obs.adjacentMembers = res.ObjStmAdjacent > 0
+	for _, ts := range res.TableSubs {
+		if ts.Rev == 0 || ts.Start != 1 {
+			continue
+		}
+		c.obs.sub1 = true
+		for k := 1; k < len(ts.Entries); k++ {
+			if ts.Entries[k] != trapEntry {
+				continue
+			}
+			c.obs.sub1MidFree = true
+			before, after := false, false
+			for j, e := range ts.Entries {
+				if strings.HasSuffix(e, "n") {
+					before = before || j < k
+					after = after || j > k
+				}
+			}
+			if before && after {
+				c.obs.sub1MidFreeBetween = true
+			}
+		}
+	}
 	if len(badLengthLanding(c, res)) > 0 {
 		// outside the domain of the /Length clause (only reachable through a
 		// hand-edited replay file; the generator normalises its cases)
@@ -635,6 +664,21 @@ func classify(c *Case) (bool, []string) {
 	}
 	if c.Seed == 0 {
 		cls = append(cls, "canonical-rendering")
+	}
+	if c.obs.sub1 {
+		cls = append(cls, "subsection-starts-at-1")
+	}
+	if c.obs.sub1MidFree {
+		add("sub1-mid-free65535", true)
+	}
+	if c.obs.sub1MidFreeBetween {
+		add("sub1-mid-free65535-between-inuse", true)
+	}
+	if c.obs.tightObjStm {
+		add("objstm-first-at-index-end", true)
+	}
+	if c.obs.adjacentMembers {
+		add("objstm-members-adjacent", true)
 	}
 	if c.obs.trap {
 		cls = append(cls, "offbyone-trap-checked")
